@@ -1,6 +1,7 @@
 import CffiVerif.Model.Enum
 import CffiVerif.Spec.GccEnum
 import CffiVerif.Proofs.ConstExpr
+import CffiVerif.Proofs.ConstExprNoWrap
 
 /-! Helper lemmas for C10. -/
 namespace CffiVerif.Enum
@@ -196,7 +197,11 @@ theorem expr_agrees {cenv : CConstExpr.Env} {penv : ConstExpr.Env} (hsame : EnvS
     (h : CConstExpr.eval cenv e = some (t, v)) :
     ConstExpr.eval penv e.toModel = .ok v ∧ t.inRange v = true := by
   simp only [exprOk, Bool.or_eq_true] at he
-  rcases he with hl | hs
+  rcases he with (hl | hs) | hnw
+  rotate_left
+  · have := eval_agrees_aux cenv penv (envSame_agree hsame) hok _ hs t v h
+    exact ⟨this.1, this.2.2⟩
+  · exact ⟨eval_agrees_nowrap_aux cenv penv (envSame_agree hsame) e hnw t v h, eval_inRange cenv hok e t v h⟩
   · cases e with
     | int l =>
       simp only [CConstExpr.eval] at h
@@ -224,8 +229,6 @@ theorem expr_agrees {cenv : CConstExpr.Env} {penv : ConstExpr.Env} (hsame : EnvS
     | neg _ => simp [isLeaf] at hl
     | ref _ => simp [isLeaf] at hl
     | bin _ _ _ => simp [isLeaf] at hl
-  · have := eval_agrees_aux cenv penv (envSame_agree hsame) hok _ hs t v h
-    exact ⟨this.1, this.2.2⟩
 
 /-- When gcc's implicit next value exists it is cffi's. -/
 def NextRel (next : Option (CType × Int)) (nextP : Int) : Prop :=
